@@ -5210,7 +5210,7 @@ class Entity(object, metaclass=EntityMeta):
             optimistic_values.extend(values)
             optimistic_operations.extend('IS_NULL' if dbval is None else converter.EQ for converter in converters)
         return optimistic_operations, optimistic_columns, optimistic_converters, optimistic_values
-    def _save_principal_objects_(obj, dependent_objects):
+    def _save_principal_objects_(obj, dependent_objects, call_before_hooks=False):
         if dependent_objects is None: dependent_objects = []
         elif obj in dependent_objects:
             chain = ' -> '.join(obj2.__class__.__name__ for obj2 in dependent_objects)
@@ -5224,7 +5224,8 @@ class Entity(object, metaclass=EntityMeta):
             if not attr.reverse: continue
             val = obj._vals_[attr]
             if val is not None and val._status_ == 'created':
-                val._save_(dependent_objects)
+                if call_before_hooks: val._before_save_()  # obj.flush(): SessionCache.flush has not called it for this object
+                val._save_(dependent_objects, call_before_hooks)
     def _update_dbvals_(obj, after_create, new_dbvals):
         bits = obj._bits_
         vals = obj._vals_
@@ -5441,10 +5442,10 @@ class Entity(object, metaclass=EntityMeta):
         return "Object %s was updated outside of current transaction%s" % (
             safe_repr(obj), ('. Changes: %s' % ', '.join(diff) if diff else ''))
 
-    def _save_(obj, dependent_objects=None):
+    def _save_(obj, dependent_objects=None, call_before_hooks=False):
         status = obj._status_
         if status in ('created', 'modified'):
-            obj._save_principal_objects_(dependent_objects)
+            obj._save_principal_objects_(dependent_objects, call_before_hooks)
 
         if status == 'created': obj._save_created_()
         elif status == 'modified': obj._save_updated_()
@@ -5473,7 +5474,7 @@ class Entity(object, metaclass=EntityMeta):
         with cache.flush_disabled():
             obj._before_save_() # should be inside flush_disabled to prevent infinite recursion
                                 # TODO: add to documentation that flush is disabled inside before_xxx hooks
-            obj._save_()
+            obj._save_(call_before_hooks=True)
         cache.call_after_save_hooks()
     def _before_save_(obj):
         status = obj._status_
